@@ -46,7 +46,7 @@ var c16pSigs = map[string]string{
 	"second-query-before-reply": "C06",
 	"connection-left-open":      "C18", "close-blocks": "C18", "exchange-after-close": "C18", "exchange-never-returned": "C18 C14", "close-panic": "C18",
 	"panic": "C01 C14 C16 C18 C05 C06 C20", "nil-nil": "C01 C14 C16", "reply-with-error": "C14 C16",
-	"ownership": "C20 C16", "tainted-wire": "C20 C06 C05", "dial-target": "C17 C16",
+	"ownership": "C20 C16", "tainted-wire": "C20 C06 C05", "dial-target": "C17 C16", "missed-deadline": "C14 C16",
 }
 
 func c16pScenario(c *choice.Ctx, rep *report.R, kind string, depth int) {
@@ -166,6 +166,9 @@ func c16pScenario(c *choice.Ctx, rep *report.R, kind string, depth int) {
 		}
 		used := map[byte]int{}
 		for _, cl := range calls {
+			if !cl.done && !paused() && !time.Now().Before(cl.deadline) {
+				fail("missed-deadline", fmt.Sprintf("exchange %d is still running at its deadline (%v after it started)", cl.idx, time.Since(cl.startAt)))
+			}
 			if !cl.done {
 				continue
 			}
@@ -331,7 +334,11 @@ func c16pScenario(c *choice.Ctx, rep *report.R, kind string, depth int) {
 	}
 	// the real constructor's wiring: every dial goes to the url's host, port 53
 	for _, t := range dialTargets {
-		if t != "udp 192.0.2.53:53" && t != "tcp 192.0.2.53:53" || (kind != "udp" && strings.HasPrefix(t, "udp")) {
+		port := "53"
+		if strings.HasPrefix(kind, "tls") {
+			port = "853"
+		}
+		if t != "udp 192.0.2.53:"+port && t != "tcp 192.0.2.53:"+port || (kind != "udp" && strings.HasPrefix(t, "udp")) {
 			fail("dial-target", "dialled "+t)
 		}
 	}
@@ -349,11 +356,11 @@ func TestVerifC16P(t *testing.T) {
 	defer rep.Write()
 	depth := report.ParamInt("DEPTH", 5)
 	bound := report.ParamInt("FAULTS", 1)
-	kinds := []string{"udp", "tcp", "tcp+pipeline"}
+	kinds := []string{"udp", "tcp", "tcp+pipeline", "tls", "tls+pipeline"} // (tls: the scripted peer never answers the hello - every exchange ends by its deadline or by Close)
 	rep.Rule = fmt.Sprintf("E3+E4: the objects the real NewUpstream builds for %v (dial closures end in the scripted dialer by an import swap of upstream.go), <=2 exchanges; all sequences of length <=%d over {start, UDP reply with / without TC, TCP reply, server FIN on the idle TCP connection, cancel, next TCP connect completes late (also after its context ended), Close, advance 2s} with <=%d fault events; "+
 		"with PAUSE=1 additionally every statement boundary reached in upstream.go and the transport files is a choice point 'this goroutine stands still here until resumed' (one per execution); "+
 		"oracle (scheduling-independent): a truncated UDP message is never returned, a TCP query follows a delivered TC reply and equals the caller's bytes, a returned message is the server's reply to this caller's question with the caller's id, no reply used twice, one query at a time per TCP connection (non-pipelined kinds), "+
-		"no panic / (nil,nil) / message with error, after Close (once it returned and nobody is held) every connection ever dialled is closed and later exchanges fail at once, all exchanges return, ownership audit, dial targets", kinds, depth, bound)
+		"no panic / (nil,nil) / message with error, every exchange has returned when its deadline has passed (nobody held), after Close (once it returned and nobody is held) every connection ever dialled is closed and later exchanges fail at once, all exchanges return, ownership audit, dial targets", kinds, depth, bound)
 	bubble(t, func() {
 		for _, k := range kinds {
 			k := k
